@@ -402,6 +402,10 @@ func (e *CEnv) pkgObject(pkg *types.Package, name string) (CVal, bool) {
 			if g, ok := sp.Members[name].(*ssa.Global); ok {
 				t := g.Type().(*types.Pointer).Elem()
 				if isObjT(t) {
+					if _, isArr := under(t).(*types.Array); isArr && singleSort(t) != nil && e.fx.eng.globalNeverWritten(g) {
+						// same rule as the program's own loads (loadGlobal): a never-written array global is its zero value
+						return CVal{V: e.fx.zeroVal(t), T: t}, true
+					}
 					return e.objVal(PtrV{Kind: PObj, Ref: e.fx.c.Const(globalKey(g), RefSort), Elem: t}), true
 				}
 				return e.goVal(e.fx.loadGlobal(e.st, g), t), true
